@@ -87,7 +87,7 @@ class ListDomain:
     def read_field(self, I, i, f, ln):
         self.check_live(i, ln, "read")
         nd = self.nodes[i]
-        if f not in ("next", "data"):
+        if f not in nd:
             raise AnalysisBroken("shape: line %d: field %s" % (ln, f))
         v = nd[f]
         if f == "next" and v[0] == "sum":
@@ -96,7 +96,7 @@ class ListDomain:
 
     def write_field(self, I, i, f, v, ln):
         self.check_live(i, ln, "write")
-        if f not in ("next", "data"):
+        if f not in self.nodes[i]:
             raise AnalysisBroken("shape: line %d: field %s" % (ln, f))
         if f == "next":
             if v[0] == "int" and v[1] == 0:
@@ -205,6 +205,12 @@ class ListDomain:
         return None
 
     # -- folding --------------------------------------------------------------------------
+    def extra_roots(self):
+        return set()
+
+    def foldable(self, i):
+        return self.nodes[i]["data"] == ("data", i)
+
     def preds(self, target):
         out = []
         for i, nd in self.nodes.items():
@@ -245,19 +251,22 @@ class ListDomain:
         return g
 
     def at_loop_head(self, I, fr, head):
-        pointed = set(v[1] for v in fr.env.values() if isinstance(v, tuple) and v and v[0] == "node")
+        pointed = set(v[1] for f_ in (getattr(I, "frames", None) or [fr]) for v in f_.env.values() if isinstance(v, tuple) and v and v[0] == "node")
+        pointed |= set(v[1][1] for f_ in (getattr(I, "frames", None) or [fr]) for v in f_.env.values()
+                       if isinstance(v, tuple) and v and v[0] == "ptr" and isinstance(v[1], tuple) and v[1][0] == "fld")
+        pointed |= self.extra_roots()
         # widen integer counters that changed since the last visit of this head
         last = self.last_ints.get(head, {})
         for k_, v in list(fr.env.items()):
-            if isinstance(v, tuple) and v and v[0] == "int" and k_ in last and last[k_] != v:
-                fr.env[k_] = ("anyint",)
+            if isinstance(v, tuple) and v and v[0] == "int" and k_ in last and last[k_] != v and v[1] not in (0, 1):
+                fr.env[k_] = ("anyint",)      # a counter; 0/1 flags keep their value
         self.last_ints[head] = dict((k_, v) for k_, v in fr.env.items() if isinstance(v, tuple) and v and v[0] in ("int", "anyint"))
         # 1. every node no variable points to becomes a one-node summary (or plain garbage when it was released)
         for i in sorted(self.nodes):
             if i in pointed or i == self.item:
                 continue
             nd = self.nodes[i]
-            if nd["data"] != ("data", i):
+            if not self.foldable(i):
                 continue
             tv = self.fresh_var()
             self.nod[tv] = nd["is_d"] is False
@@ -309,14 +318,18 @@ class ListDomain:
                         del self.sums[sa[0]]
                         changed = True
                         break
-        key = self.canon(fr, head)
+        self.visits_at = getattr(self, "visits_at", {})
+        self.visits_at[head] = self.visits_at.get(head, 0) + 1
+        if self.visits_at[head] > 30:
+            raise AnalysisBroken("shape: no fixpoint at the loop head of %s after 30 iterations on one path (%d nodes, %d summaries)" % (fr.fn.name, len(self.nodes), len(self.sums)))
+        key = self.canon(fr, head, I)
         pref = I.ch.prefix()
         if key in self.seen:
             return self.seen[key] == pref
         self.seen[key] = pref
         return True
 
-    def canon(self, fr, head):
+    def canon(self, fr, head, I=None):
         names = {}
 
         def nm(kind, x):
@@ -332,8 +345,13 @@ class ListDomain:
                 return ("node", nm("n", v[1]))
             if v[0] == "sum":
                 return ("sum", nm("n", v[1]))
-            if v[0] == "data":
-                return ("data", nm("n", v[1]))
+            if v[0] in ("data", "key", "value") and len(v) == 2:
+                return (v[0], nm("n", v[1]))
+            if v[0] == "ptr" and isinstance(v[1], tuple):
+                if v[1][0] == "fld":
+                    return ("ptr", ("fld", nm("n", v[1][1]), v[1][2]))
+                if v[1][0] == "frame":
+                    return ("ptr", ("frame", v[1][2]))
             return v
 
         def atom(a):
@@ -341,11 +359,11 @@ class ListDomain:
                 return ("n", nm("n", a[1]))
             return (a[0], nm("v", a[1]))
         pre = tuple(atom(a) for a in self.pre)
-        env = tuple(sorted((k_, val(v)) for k_, v in fr.env.items()))
+        env = tuple((f_.fn.name, tuple(sorted((k_, val(v)) for k_, v in f_.env.items()))) for f_ in ((getattr(I, "frames", None) if I is not None else None) or [fr]))
         heap = []
         for i in sorted(self.nodes, key=lambda j: names.get(("n", j), "zz%d" % j)):
             nd = self.nodes[i]
-            heap.append((nm("n", i), val(nd["next"]), val(nd["data"]), nd["is_d"], i in self.freed_ids))
+            heap.append((nm("n", i), tuple(sorted((k_, val(v_)) for k_, v_ in nd.items() if isinstance(v_, tuple))), nd["is_d"], i in self.freed_ids))
         for i in sorted(self.sums, key=lambda j: names.get(("n", j), "zz%d" % j)):
             sm = self.sums[i]
             heap.append((nm("n", i), val(sm["next"]), atom(sm["atom"]), self.nod.get(sm["atom"][1], False)))
